@@ -63,20 +63,45 @@ def innermost_repo_frame(exc):
     return where, line
 
 
+class _TimeLimit(BaseException):
+    """Raised by the alarm below inside a library call that has not returned after CALL_LIMIT_S seconds."""
+
+
+CALL_LIMIT_S = 20.0       # one query on a document of a few nodes takes milliseconds; a call still running after this long
+                          # is reported as one that does not return (seen: an optional-match query that kept appending to
+                          # the list it was iterating), instead of hanging the whole check
+
+
+def _on_alarm(signum, frame):
+    raise _TimeLimit()
+
+
 def call_real(fn):
     """Run `fn` -> ('ok', value) | ('unmatched',) | ('yamlpath', cls, where) | ('crash', type, where, line)."""
+    import signal
+    import threading
     from yamlpath.exceptions import YAMLPathException, UnmatchedYAMLPathException
+    timed = threading.current_thread() is threading.main_thread() and signal.getsignal(signal.SIGALRM) in (signal.SIG_DFL, _on_alarm, None)
+    if timed:
+        signal.signal(signal.SIGALRM, _on_alarm)
+        signal.setitimer(signal.ITIMER_REAL, CALL_LIMIT_S)
     try:
         return ("ok", fn())
     except UnmatchedYAMLPathException:
         return ("unmatched",)
     except YAMLPathException as ex:
         return ("yamlpath", type(ex).__name__, innermost_repo_frame(ex)[0])
+    except _TimeLimit as ex:
+        # (where the alarm happened to interrupt the call says nothing: the class is "the query does not return")
+        return ("crash", "DoesNotReturn", "query(still running after %ds)" % CALL_LIMIT_S, "")
     except (KeyboardInterrupt, SystemExit, MemoryError):
         raise
     except BaseException as ex:       # noqa: the monitored event
         where, line = innermost_repo_frame(ex)
         return ("crash", type(ex).__name__, where, line)
+    finally:
+        if timed:
+            signal.setitimer(signal.ITIMER_REAL, 0)
 
 
 def normalize(ncs):
